@@ -43,7 +43,7 @@ def main():
         })
     manifest = {
         'version': 1,
-        'setup_cmd': '/venv/bin/python tools/extract_tables.py && cd lean && lake build',
+        'setup_cmd': 'bash tools/setup.sh',
         'hooks': {
             'guard': 'KATDAL_VERIF',
             'enable': 'no source hooks are needed: checks import /repo (editable install) in-process; KATDAL_VERIF=1 is '
